@@ -72,6 +72,8 @@ class Interp:
         self.nops = dict((n, o) for n, o in program.get('natives', []))
         self.until = program.get('until')
         self.chains = [tuple(c) for c in program.get('chains', [])]
+        # watchdog idiom: a callback of an event interrupts a process - [event, process, cause]
+        self.watchdogs = [tuple(c) for c in program.get('watchdogs', [])]
 
     def initial(self):
         s = S()
@@ -321,6 +323,9 @@ class Interp:
         for src, dst in self.chains:
             if ('e', src) in s.fired and ('e', dst) not in s.fired:
                 en.append(('chain', src, dst))
+        for i, (src, proc, cause) in enumerate(self.watchdogs):
+            if ('e', src) in s.fired and not s.flags.get('wd:%d' % i):
+                en.append(('watchdog', i))
         if isinstance(self.until, (list, tuple)) and tuple(self.until) in s.fired:
             en.append(('stop',))
         return en
@@ -379,6 +384,14 @@ class Interp:
             elif tr[0] == 'chain':
                 ok, value, _ = c.fired[('e', tr[1])]
                 self.fire(c, ('e', tr[2]), ok, value)
+            elif tr[0] == 'watchdog':
+                _, proc, cause = self.watchdogs[tr[1]]
+                c.flags['wd:%d' % tr[1]] = True
+                q = c.st[proc]
+                if q['status'] != 'done':       # (ignored for a finished process)
+                    q['irqs'].append(cause)
+                    if q['status'] == 'waiting':
+                        q['status'] = 'ready'
             elif tr[0] == 'settle':
                 key = tr[1]
                 c.settled.add(key)
@@ -573,6 +586,10 @@ def run_real(program):
             procs[name] = env.process(body(name, ops))
         for src, dst in program.get('chains', []):
             events[src].callbacks.append(events[dst].trigger)
+        for src, proc, cause in program.get('watchdogs', []):
+            def bark(event, proc=proc, cause=cause):
+                procs[proc].interrupt(cause)
+            events[src].callbacks.append(bark)
         for name in program.get('defuse', []):
             # the supervision idiom: a callback that handles the failure of the event
             def handle(event):
@@ -727,6 +744,22 @@ def cases(tier):
                     ['succeed', 'e0', 'v'], ['interrupt', 'OTHER', 'c']], [None, 2]),
     }
     out = []
+    # watchdog idiom: callbacks of e0 / e1 interrupt a process (which may be waiting, about to start, or finished - also the one
+    # that triggered the event and ended right afterwards)
+    walpha = [['timeout', 1, 'a'], ['timeout', 0, 'z'], ['succeed', 'e0', 'v'], ['succeed', 'e1', 'w'], ['wait', 'e0'], ['return', 7]]
+    for s0, s1 in itertools.product(scripts(walpha, 2), scripts(walpha, 2)):
+        if not any(op[0] == 'succeed' for op in s0 + s1):
+            continue
+        for wd in ([['e0', 'p0', 'bark']], [['e0', 'p1', 'bark']], [['e0', 'p1', 'b1'], ['e1', 'p1', 'b2']], [['e0', 'p0', 'b1'], ['e0', 'p1', 'b2']]):
+            if all(not any(op[0] == 'succeed' and op[1] == w[0] for op in s0 + s1) for w in wd):
+                continue
+            for mode in ('standalone', 'embedded') if len(s0) + len(s1) <= 3 else ('standalone',):
+                base = {'family': 'watchdog', 'procs': [['p0', [list(op) for op in s0]], ['p1', [list(op) for op in s1]]], 'until': None,
+                        'events': ['e0', 'e1'], 'mode': mode, 'watchdogs': wd}
+                if mode == 'embedded':
+                    base['procs'] = base['procs'] + [['pk', [['timeout', 3, 'k']]]]
+                    base['natives'] = [['n0', [['await', 'e0']]], ['n1', [['sleep', 1], ['succeed', 'e1', 'nv']]]]
+                out.append(base)
     for fam, (alpha, untils) in fams.items():
         ss = scripts(alpha, L)
         if fam == 'cond' and thorough:
